@@ -1,6 +1,7 @@
 //! Bounded exhaustive exploration of the real `fst` code against reference
 //! models. See /verif/DESIGN.md.
 
+pub mod alloc;
 pub mod codec;
 pub mod crc;
 pub mod dfa;
